@@ -14,14 +14,14 @@ import (
 type sval = sym
 
 type env struct {
-	f         *frame
-	vc        *FnVC
-	vars      map[string]*sym
-	cur, old  *state
-	pkgPath   string
-	typesOnly bool
-	depth     int
-	iterEnv   *env
+	f          *frame
+	vc         *FnVC
+	vars       map[string]*sym
+	cur, old   *state
+	pkgPath    string
+	typesOnly  bool
+	depth      int
+	iterEnv    *env
 	pointBlock *ssa.BasicBlock // program point for resolving local variable names (nil: no locals)
 	pointIdx   int
 }
@@ -1032,7 +1032,6 @@ func (e *env) heapKeysOfSpec(spec string) []string {
 	return nil
 }
 
-
 // ---------- recursive spec functions (define-fun-rec with the heaps they read as parameters) ----------
 
 func (e *env) recCall(d *SpecDef, x *ECall) *sym {
@@ -1101,7 +1100,6 @@ func (vc *FnVC) defineRec(d *SpecDef) *recInfo {
 	return info
 }
 
-
 func collectUfuncApps(w *World, x Expr, out *[]*ECall) {
 	switch x := x.(type) {
 	case *ECall:
@@ -1131,7 +1129,6 @@ func collectUfuncApps(w *World, x Expr, out *[]*ECall) {
 		collectUfuncApps(w, x.B, out)
 	}
 }
-
 
 // ufuncApp declares (on demand) and applies an uninterpreted spec function to SMT terms.
 func (vc *FnVC) ufuncApp(name string, terms ...string) (string, bool) {
